@@ -49,7 +49,7 @@ func (c19) RequiredBuckets(tier string) []string {
 		}
 		out = append(out, op+"|true", op+"|false")
 	}
-	return out
+	return append(out, "cli:select", "cli:select -v", "cli:select -s")
 }
 
 func (c19) Findings() []fw.Finding {
@@ -1196,4 +1196,5 @@ func (m c19) Run(c *fw.Ctx) {
 		}
 		m.checkInsertSeq(c, feats)
 	}
+	cliSelect(c)
 }
